@@ -1,9 +1,9 @@
 """C02 — built messages serialise to valid wire format and round-trip exactly (kernels: byte-order conversion, leaf marshalling)."""
 META = {
-    "explanation": "Kernel-level bounded checks: (b) the real _dbus_marshal_byteswap on every well-formed body (well-formedness assumed through the independent decoder) of a "
+    "explanation": "Kernel-level bounded checks: (c) the real DBusTypeWriter / DBusTypeReader / validator round trip per concrete value-tree shape with symbolic values, against an independent encoder; (b) the real _dbus_marshal_byteswap on every well-formed body (well-formedness assumed through the independent decoder) of a "
                    "concrete signature: result well-formed in the other order, same decoded values, accepted by the real validator, involutive; (a) the real "
                    "_dbus_marshal_write_basic / _read_basic on a fixed-capacity string: spec encoding, zero padding, exact read-back.",
-    "outside": ["the dbus_message_* construction API, header creation, dbus_message_copy", "DBusTypeWriter containers (arrays / structs / variants written through the writer)",
+    "outside": ["the dbus_message_* wrappers around the writer (argument checks, message locking, header creation, dbus_message_copy)",
                 "bodies longer than N, signatures outside the family", "re-serialisation byte identity of whole messages"],
 }
 ENV = ["assert_stubs.c", "mem.c", "list_lifo.c"]
@@ -21,4 +21,21 @@ def jobs(tier):
                          tiers=tiers, ignore=ART, encodes=["_dbus_marshal_byteswap", "byteswap_body_helper", "_dbus_swap_array", "_dbus_validate_body_with_reason"],
                          assumes=["the body is well-formed in the source byte order according to ref/ref_marshal.h"],
                          bounds=f"signature '{sig}', every well-formed body of 0..{n} bytes, both directions", shape=f"byteswap of {sig}", cost=n))
+    # ---- C02.c: DBusTypeWriter -> bytes -> validator -> DBusTypeReader round trip on pool strings (R19)
+    WR = [("yqus", 2, 3, "u"), ("(ys)x", 2, 2, "u"), ("auy", 2, 1, "u"), ("auy", 0, 1, "u"), ("a(yy)q", 0, 1, "u"), ("a(yy)q", 2, 1, "u"), ("as", 2, 2, "u"), ("vy", 1, 3, "u"), ("vy", 1, 3, "s"),
+          ("a{sv}", 1, 2, "u"), ("atu", 0, 1, "u"), ("atu", 1, 1, "u"), ("xyd(nb)h", 1, 1, "u"), ("aayq", 2, 1, "u"), ("(u(ys))t", 1, 3, "u"), ("yv", 1, 2, "(ys)"), ("a{us}y", 2, 1, "u"), ("sas", 1, 5, "u")]
+    for k, (sig, acnt, slen, vsig) in enumerate(WR):
+        for o in "lB":
+            J.append(Job(name=f"c.writer.{sig}.A{acnt}.S{slen}.V{vsig}.{'le' if o == 'l' else 'be'}", group="C02.c", harness="harness/C02_writer.c",
+                         defines={"SIG": '"' + sig + '"', "ACNT": acnt, "SLEN": slen, "VSIG": '"' + vsig + '"', "ORDER": "'%s'" % o},
+                         real=["dbus/dbus-marshal-recursive.c", "dbus/dbus-marshal-validate.c", "dbus/dbus-signature.c", "dbus/dbus-list.c"], env=["assert_stubs.c", "mem.c", "memfuncs.c", "pool_lock.c"],
+                         checks="assert", unwind=170, unwindset=["_dbus_string_validate_utf8.0:12", "_dbus_string_validate_utf8.1:12", "_dbus_string_validate_utf8.2:12"], timeout=900, mem_gb=16,
+                         extra=["--object-bits", "12", "--max-field-sensitivity-array-size", "200"], tiers=("quick", "thorough") if (k + (o == "B")) % 2 == 0 else ("thorough",),
+                         encodes=["_dbus_type_writer_init", "_dbus_type_writer_write_basic", "_dbus_type_writer_recurse", "_dbus_type_writer_unrecurse", "writer_recurse_array", "writer_recurse_struct_or_dict_entry",
+                                  "writer_recurse_variant", "_dbus_marshal_write_basic", "marshal_string", "_dbus_string_insert_alignment", "_dbus_validate_body_with_reason", "_dbus_type_reader_init",
+                                  "_dbus_type_reader_recurse", "_dbus_type_reader_next", "_dbus_type_reader_read_basic"],
+                         stubs=["_dbus_string_init = fixed 160-byte pool buffers (R19)", "strlen in marshal_string = checked oracle (all written strings have the job's length)"],
+                         assumes=["no allocation failure", "string bytes are non-NUL ASCII"],
+                         bounds=f"signature '{sig}', every array {acnt} element(s), every string {slen} byte(s), variants contain '{vsig}', byte order {'little' if o == 'l' else 'big'}; all values symbolic",
+                         shape=f"writer round trip {sig} A{acnt} S{slen} V{vsig}"))
     return J
